@@ -454,7 +454,89 @@ def strategy(tier):
     return _case()
 
 
+SCENARIO_REFS = [("watt", 1, 1, ""), ("volt", 2, 1, ""), ("pascal", 2, 20, "micro"), ("ampere", 2, 1, "milli")]
+SCENARIO_LOGS = [("decibel", 10.0, 0.1), ("bel", 10.0, 1.0), ("neper", math.e, 1.0), ("octave", 2.0, 1.0)]
+
+
+def _scenario_levels(m, units, prefixes):
+    """(description, level object factory, closed-form SI quantity) for a small fixed table;
+    the oracle is the definition written out by hand, with k from the table above"""
+    logs = {"decibel": m.Decibel, "bel": m.Bel, "neper": m.Neper, "octave": m.Octave}
+    for uname, k, refmag, refp in SCENARIO_REFS:
+        unit = units[uname] if not refp else prefixes[refp] * units[uname]
+        refscale = {"": 1.0, "micro": 1e-6, "milli": 1e-3}[refp]
+        for lname, b, pv in SCENARIO_LOGS:
+            lu = logs[lname][refmag * unit]
+            yield uname, k, refmag * refscale, lname, b, pv, lu
+
+
+def _run_scenario(case, out):
+    """(arith)  a level that has already been quantified / compared is shifted with * and / and
+    the result is converted: it must denote reference * base**((L+d)*prefix/k);
+    (after-define)  the same table of levels is evaluated in a fresh world before and after a
+    new fundamental dimension is defined (Dimension.define resizes every dimension in place)."""
+    sc = case.get("sc")
+    if sc == "arith":
+        c_m = W.m
+        units = {n: c_m.Unit._by_name[n] for n in ("watt", "volt", "pascal", "ampere")}
+        prefixes = {n: c_m.Prefix._by_name[n] for n in ("micro", "milli")}
+        worlds = [("shared", c_m, units, prefixes)]
+    elif sc == "after-define":
+        from ..world import World
+
+        w2 = World(["si", "acoustics", "electronics"])
+        c_m = w2.m
+        units = {n: c_m.Unit._by_name[n] for n in ("watt", "volt", "pascal", "ampere")}
+        prefixes = {n: c_m.Prefix._by_name[n] for n in ("micro", "milli")}
+        worlds = [("before-define", c_m, units, prefixes), ("after-define", c_m, units, prefixes)]
+    else:
+        out.invalid = True
+        return
+    try:
+        for tag, m, units, prefixes in worlds:
+            if tag == "after-define":
+                m.Dimension.define("vf18 extra", "VFY")
+            for uname, k, refsi, lname, b, pv, lu in _scenario_levels(m, units, prefixes):
+                for L0, d in ((10, 10), (0, 3), (-6.5, 2.5), (20, -14)):
+                    what = f"[{tag}] {L0} {lname} re {refsi:g} {uname}"
+                    try:
+                        lvl = L0 * lu
+                        q0 = lvl.quantify()
+                        lvl == q0  # noqa: B015 -- a comparison before the arithmetic is part of the scenario
+                        want0 = refsi * b ** (L0 * pv / k)
+                        got0 = float(q0.unprefixed().magnitude)
+                        if abs(got0 - want0) > 1e-9 * abs(want0):
+                            out.fail(f"C18:scenario:{tag}:l2q", f"{what}: quantify() = {got0!r} SI, definition gives {want0!r} (k={k})")
+                        back = lu.level(q0)
+                        if abs(float(back.magnitude) - L0) > 1e-9 * max(abs(L0), (k / pv) / abs(math.log(b))):
+                            out.fail(f"C18:scenario:{tag}:q2l", f"{what}: level of its own quantity is {back.magnitude!r} (k={k})")
+                        for name, shifted, Ls in (("mul", lvl * d, L0 + d), ("div", lvl / d, L0 - d)):
+                            if float(shifted.magnitude) != float(Ls) and abs(float(shifted.magnitude) - Ls) > 1e-12:
+                                continue  # Level arithmetic itself is not this property's subject
+                            want = refsi * b ** (Ls * pv / k)
+                            got = float(shifted.quantify().unprefixed().magnitude)
+                            if abs(got - want) > 1e-9 * abs(want):
+                                out.fail(f"C18:scenario:{tag}:shifted-level:{name}", f"{what} shifted by {d} ({name}) to {shifted.magnitude!r}: quantify() = {got!r} SI, definition gives {want!r}")
+                            eq1, eq2 = shifted == m.approximately(shifted.quantify(), 1e-9), m.approximately(shifted.quantify(), 1e-9) == shifted
+                            if not (eq1 and eq2):
+                                out.fail(f"C18:scenario:{tag}:shifted-level:eq", f"{what} shifted to {shifted.magnitude!r} does not compare equal to the quantity it denotes ({eq1}, {eq2})")
+                    except Exception as e:  # noqa
+                        out.fail(f"C18:scenario:{tag}:raises:{type(e).__name__}@{core.innermost_frame(e)}", f"{what}: {type(e).__name__}: {e}")
+                    if len(out.failures) > 6:
+                        return
+    finally:
+        if sc == "after-define":
+            from ..world import shared_world
+
+            shared_world()
+    out.classes.append(f"scenario:{sc}")
+    out.nontrivial = f"scenario|{sc}"
+    out.sample = {"scenario": sc}
+
+
 def enumerate_cases(tier):
+    yield {"sc": "arith"}
+    yield {"sc": "after-define"}
     for fam in ENUM_FAMILIES:
         for cls in sorted(TERMS):
             sp = TERMS[cls]
@@ -645,6 +727,11 @@ def _eq_both(out, derived, variant, lvl, qty, what):
 
 def run_case(case) -> core.Outcome:
     out = core.Outcome()
+    if isinstance(case, dict) and "sc" in case:
+        if W is None:
+            setup("quick")
+        _run_scenario(case, out)
+        return out
     # ---- validation (the shrinker may hand us anything)
     try:
         fam, ref, at, q, qat, q2 = case["fam"], case["ref"], case["at"], case["q"], case["qat"], case["q2"]
